@@ -207,9 +207,22 @@ PathsOf(J, ps) ==
 (* REQUIREMENT side *)
 Accept(C) == /\ \A i, j \in 1..Len(C) : i # j => ~CompPrefix(C[i], C[j])   \* injective and prefix-free
              /\ \A i \in 1..Len(C) : ~Escapes(C[i])                          \* and beneath the target
-\* files of a job, as components that cannot clash with any path component (code points 0..5)
+\* payload below a job directory, with the real directory names (they decide the order in which archives are scanned):
+\*   nested:  sub/deep/f.txt  sub/g.bin
+\*   embed :  state point files that are DATA, not jobs: sub/signac_statepoint.json (foreign state point, depth 1),
+\*            emb/two/signac_statepoint.json (depth 2; embed = "self": the job's own state point, "foreign": another one),
+\*            inner/workspace/<32 zeros>/{signac_statepoint.json, payload.dat} (an embedded foreign job directory, depth 3)
+tSub == <<115, 117, 98>>  tDeep == <<100, 101, 101, 112>>  tEmb == <<101, 109, 98>>  tTwo == <<116, 119, 111>>
+tInner == <<105, 110, 110, 101, 114>>  tWs == <<119, 111, 114, 107, 115, 112, 97, 99, 101>>  tZeros == [k \in 1..32 |-> 48]
+DirsOf(job) == {<<>>} \cup (IF job.nested THEN {<<tSub>>, <<tSub, tDeep>>} ELSE {})
+                      \cup (IF job.embed # "none" THEN {<<tSub>>, <<tEmb>>, <<tEmb, tTwo>>, <<tInner>>, <<tInner, tWs>>, <<tInner, tWs, tZeros>>} ELSE {})
+SpDirsOf(job) == {<<>>} \cup (IF job.embed # "none" THEN {<<tSub>>, <<tEmb, tTwo>>, <<tInner, tWs, tZeros>>} ELSE {})
+\* the directory holds the job's own state point; all other ones hold a foreign state point (each a different one)
+SelfSp(job, d) == d = <<>> \/ (job.embed = "self" /\ d = <<tEmb, tTwo>>)
+\* files of a job; file names are components that cannot clash with any path component (code points 0..6; <<0>> = state point file)
 fSP == <<<<0>>>>  fDOC == <<<<1>>>>  fTOP == <<<<2>>>>  fNEST == <<<<3>>, <<4>>, <<5>>>>
 FilesOf(job) == {fSP, fTOP} \cup (IF job.doc THEN {fDOC} ELSE {}) \cup (IF job.nested THEN {fNEST} ELSE {})
+                \cup (IF job.embed # "none" THEN {d \o <<<<0>>>> : d \in SpDirsOf(job) \ {<<>>}} \cup {<<tInner, tWs, tZeros, <<6>>>>} ELSE {})
 IdealTree(J, C) == {<<C[i] \o f, i>> : <<i, f>> \in UNION {{<<i, f>> : f \in FilesOf(J[i])} : i \in 1..Len(J)}}
 IdealRoundTrip(J, C) ==
   LET tree == IdealTree(J, C)
@@ -250,41 +263,57 @@ ZipScan(rest, ids, fix1, rootOk) ==
        THEN ZipScan(Tail(rest), ids, fix1, rootOk)
        ELSE IF s # <<>> \/ rootOk THEN ZipScan(Tail(rest), ids \cup {s}, fix1, rootOk)         \* DEVIATION D2
        ELSE ZipScan(Tail(rest), ids, fix1, rootOk)
-RECURSIVE TarScan(_, _, _, _)
-TarScan(rest, ids, skip, rootOk) ==
+RECURSIVE TarScan(_, _, _, _, _)      \* rest: all directory members, sorted; sp: the ones holding a state point file
+TarScan(rest, ids, skip, rootOk, sp) ==
   IF rest = <<>> THEN ids
   ELSE LET s == Head(rest) IN
-       IF s # <<>> /\ DirName(s) \in skip THEN TarScan(Tail(rest), ids, skip \cup {s}, rootOk)
-       ELSE IF s # <<>> \/ rootOk THEN TarScan(Tail(rest), ids \cup {s}, skip \cup {s}, rootOk) \* DEVIATION D2
-       ELSE TarScan(Tail(rest), ids, skip, rootOk)
+       \* "skip all sub-dirs of identified dirs": a skipped directory is added to the set, so the whole sub-tree is skipped
+       IF s # <<>> /\ DirName(s) \in skip THEN TarScan(Tail(rest), ids, skip \cup {s}, rootOk, sp)
+       ELSE IF s \in sp /\ (s # <<>> \/ rootOk) THEN TarScan(Tail(rest), ids \cup {s}, skip \cup {s}, rootOk, sp) \* DEVIATION D2
+       ELSE TarScan(Tail(rest), ids, skip, rootOk, sp)
+Under(b, d) == IF d = <<>> THEN b ELSE IF b = <<>> THEN JoinSL(d) ELSE b \o <<SL>> \o JoinSL(d)
 
+(* Import(tree): every TOP-MOST directory holding a state point file is that job; state point files further down are
+   payload.  Candidates are all directories holding a state point file (job roots and embedded ones); a callable
+   schema / schema string only knows the job roots. *)
 ImportOf(J, P, kind, F, cb) ==
   LET n == Len(J)
       N == [i \in 1..n |-> JoinSL(NormComps(P[i]))]
       Esc  == {i \in 1..n : Escapes(NormComps(P[i]))}
       \* a directory target does not contain what was written outside of it
-      Strs == {N[i] : i \in IF kind = "dir" THEN (1..n) \ Esc ELSE 1..n}
-      Sorted == SetToSortSeq(Strs, LexLess)
+      In == IF kind = "dir" THEN (1..n) \ Esc ELSE 1..n
+      SpD(i) == IF cb THEN {<<>>} ELSE SpDirsOf(J[i])
+      Cand == UNION {{[s |-> Under(N[i], d), b |-> N[i], d |-> d] : d \in SpD(i)} : i \in In}
+      CStrs == {x.s : x \in Cand}
+      AllDirs == UNION {{Under(N[i], d) : d \in DirsOf(J[i])} : i \in In}
       LastDup(i) == \A j \in (i + 1)..n : N[j] # N[i]           \* duplicate archive members: the last one is read
       ZipPre(q, s) == IF F.d1 THEN SubPath(q, s) ELSE StrPrefix(q, s)
-      Ids == CASE kind = "dir" -> {s \in Strs : ~\E q \in Strs : q # s /\ SubPath(q, s)}
-               [] kind = "zip" -> ZipScan(Sorted, {}, F.d1, F.d2 \/ cb)
-               [] kind = "tar" -> TarScan(Sorted, {}, {}, F.d2 \/ cb)
-      Ident(i) == N[i] \in Ids /\ LastDup(i)
+      Ids == CASE kind = "dir" -> {s \in CStrs : ~\E q \in CStrs : q # s /\ SubPath(q, s)}                  \* os.walk, top-down
+               [] kind = "zip" -> ZipScan(SetToSortSeq(CStrs, LexLess), {}, F.d1, F.d2 \/ cb)
+               [] kind = "tar" -> TarScan(SetToSortSeq(AllDirs, LexLess), {}, {}, F.d2 \/ cb, CStrs)
+      IdC == {x \in Cand : x.s \in Ids}
+      \* the job an identified directory becomes: 0 = a job the exported project does not have
+      \* (when several jobs were written to one path, the files of the last one are read)
+      Who(x) == LET w == Max({i \in In : N[i] = x.b /\ x.d \in SpD(i)}) IN IF SelfSp(J[w], x.d) THEN w ELSE 0
+      Alien  == \E x \in IdC : Who(x) = 0
+      DupJob == \E x, y \in IdC : x # y /\ Who(x) # 0 /\ Who(x) = Who(y)     \* "identified jobs are not unique": the import raises
+      Ident(i) == i \in In /\ N[i] \in Ids /\ LastDup(i)                      \* the job's own directory is identified
+      Imp(i)   == \E x \in IdC : Who(x) = i
       Into(i)  == IF kind = "zip" THEN {j \in 1..n : ZipPre(N[i], N[j]) /\ SubPath(N[i], N[j])}
-                  ELSE {j \in (1..n) \ (IF kind = "dir" THEN Esc ELSE {}) : SubPath(N[i], N[j])}
+                  ELSE {j \in In : SubPath(N[i], N[j])}
       Stray    == IF kind = "zip"
                   THEN UNION {{j \in 1..n : ZipPre(N[i], N[j]) /\ ~SubPath(N[i], N[j])} : i \in {i \in 1..n : Ident(i)}}
                   ELSE {}
-      Covers(i, j) == (J[j].doc => J[i].doc) /\ (J[j].nested => J[i].nested)
+      Covers(i, j) == (J[j].doc => J[i].doc) /\ (J[j].nested => J[i].nested) /\ (J[j].embed = "none" \/ J[i].embed # "none")
       Exact(i) == Ident(i) /\ \A j \in Into(i) \ {i} : N[j] = N[i] /\ Covers(i, j)
       none == [i \in 1..n |-> FALSE]
-  IN \* tarfile.extractall(filter="data") refuses members outside the extraction directory (Python >= 3.12): clean raise
-     \* (after the archive was analysed: ident is what the analysis identified)
-     IF kind = "tar" /\ Esc # {}
-     THEN [ident |-> [i \in 1..n |-> Ident(i)], imp |-> none, exact |-> none, stray |-> FALSE, raises |-> TRUE, outside |-> FALSE]
-     ELSE [ident |-> [i \in 1..n |-> Ident(i)], imp |-> [i \in 1..n |-> Ident(i)], exact |-> [i \in 1..n |-> Exact(i)],
-           stray |-> Stray # {}, raises |-> FALSE, outside |-> kind = "dir" /\ Esc # {}]
+  IN \* clean raises after the analysis (ident is what the analysis identified):
+     \* tarfile.extractall(filter="data") refuses members outside the extraction directory (Python >= 3.12);
+     \* archives check that the identified jobs are unique before anything is copied
+     IF (kind = "tar" /\ Esc # {}) \/ (kind # "dir" /\ DupJob)
+     THEN [ident |-> [i \in 1..n |-> Imp(i)], imp |-> none, exact |-> none, stray |-> FALSE, raises |-> TRUE, outside |-> FALSE]
+     ELSE [ident |-> [i \in 1..n |-> Imp(i)], imp |-> [i \in 1..n |-> Imp(i)], exact |-> [i \in 1..n |-> Exact(i)],
+           stray |-> Stray # {} \/ Alien, raises |-> FALSE, outside |-> kind = "dir" /\ Esc # {}]
 
 Outcome(J, pr, pskind, kind, F, cb) ==
   LET n == Len(J)
@@ -357,7 +386,8 @@ ParseBack(sch, C) ==
 (* cases *)
 IdIdx == {i \in 1..Len(Tab) : Tab[i].k = "id"}
 IdTbl == IF MODE = "universe" THEN [u \in 1..NU |-> Tab[CHOOSE i \in IdIdx : Tab[i].u = u].r] ELSE <<>>
-JobOf(u) == [u |-> u, sp |-> Universe[u], id |-> IdTbl[u], doc |-> u % 3 # 0, nested |-> u % 2 = 1]
+EmbedOf(u) == IF u % 6 = 1 THEN "self" ELSE IF u % 6 = 4 THEN "foreign" ELSE "none"
+JobOf(u) == [u |-> u, sp |-> Universe[u], id |-> IdTbl[u], doc |-> u % 3 # 0, nested |-> u % 2 = 1, embed |-> EmbedOf(u)]
 Perms(S) == LET m == Cardinality(S) IN {s \in [1..m -> S] : \A i, j \in 1..m : i # j => s[i] # s[j]}
 \* a case is kept small (state = [tag, us, ps]); the jobs are looked up when a theorem is evaluated:
 \* universe mode: us = universe indices in listing order; file mode: tag = line of the harness file, us = 1..n
@@ -366,7 +396,7 @@ UCases == IF MODE # "universe" THEN {} ELSE
                         : s \in Perms(S)} : S \in {S \in UNION {kSubset(k, 1..NU) : k \in 0..MAXJOBS} : SumSet(S) % NPARTS = PART}}
 FileIn == IF MODE = "file" THEN ndJsonDeserialize(IOEnv.C16_CASES) ELSE <<>>
 FJobs(r) == [i \in 1..Len(r.jobs) |-> [u |-> r.jobs[i].u, sp |-> FromWire(r.jobs[i].sp), id |-> r.jobs[i].id,
-                                        doc |-> r.jobs[i].doc, nested |-> r.jobs[i].nested]]
+                                        doc |-> r.jobs[i].doc, nested |-> r.jobs[i].nested, embed |-> r.jobs[i].embed]]
 Cases == CASE MODE = "universe" -> UCases
            [] MODE = "file"     -> {[tag |-> i, us |-> [k \in 1..Len(FileIn[i].jobs) |-> k], ps |-> FileIn[i].ps] : i \in 1..Len(FileIn)}
            [] OTHER             -> {[tag |-> 0, us |-> <<>>, ps |-> 1]}
@@ -426,7 +456,10 @@ OutKind(J, pr, pskind, k, cb) == LET o == Outcome(J, pr, pskind, k, Flags, cb) I
   [exp |-> o.exp, ncopied |-> o.ncopied, imp |-> o.imp, exact |-> o.exact, stray |-> o.stray, rt |-> o.rt,
    impraise |-> o.impraise, outside |-> o.outside,
    blame |-> Blame(J, pr, pskind, k, Flags, cb, o.rt),
-   existing |-> Len(J) >= 1 /\ ImportInto(o, k, {1}).raises, existingdee |-> Len(J) >= 1 /\ ImportInto(o, k, {1}).exists]
+   existing |-> Len(J) >= 1 /\ ImportInto(o, k, {1}).raises, existingdee |-> Len(J) >= 1 /\ ImportInto(o, k, {1}).exists,
+   \* jobs that may have been copied when the import into that project returns or raises (calibrated, not a requirement:
+   \* directories are copied one by one until the conflict, archives are all-or-nothing)
+   existingmay |-> [i \in 1..Len(J) |-> i \in ImportInto(o, k, {1}).maywrite]]
 OutCase(x) == LET J == JobsOf(x)  ps == PathSpecs[x.ps]  n == Len(J)
                   pr == PathsOf(J, ps)
                   comps == CompsOf(pr)
@@ -434,7 +467,7 @@ OutCase(x) == LET J == JobsOf(x)  ps == PathSpecs[x.ps]  n == Len(J)
                   sc == ps.kind = "none" /\ SchemaApplicable(J)
                   sch == SchemaOf(J) IN
   [tag |-> IF MODE = "file" THEN FileIn[x.tag].tag ELSE 0, ps |-> x.ps, us |-> [i \in 1..n |-> J[i].u],
-   doc |-> [i \in 1..n |-> J[i].doc], nested |-> [i \in 1..n |-> J[i].nested],
+   doc |-> [i \in 1..n |-> J[i].doc], nested |-> [i \in 1..n |-> J[i].nested], embed |-> [i \in 1..n |-> J[i].embed],
    pathsok |-> allok, paths |-> [i \in 1..n |-> pr[i].s],
    accept |-> allok /\ Accept(comps),
    safe |-> allok => \A i \in 1..n : /\ (pr[i].s = <<>> \/ pr[i].s[1] # SL)      \* sandbox safety of the replay
@@ -447,7 +480,7 @@ OutCase(x) == LET J == JobsOf(x)  ps == PathSpecs[x.ps]  n == Len(J)
 WireSeg(s) == [k |-> s.k, t |-> s.t, kp |-> s.kp]
 Describe == <<[universe |-> [u \in 1..NU |-> ToWire(Universe[u])],
                leaves |-> LET ls == SetToSeq(Leaves) IN [i \in 1..Len(ls) |-> ToWire(ls[i])],
-               doc |-> [u \in 1..NU |-> u % 3 # 0], nested |-> [u \in 1..NU |-> u % 2 = 1],
+               doc |-> [u \in 1..NU |-> u % 3 # 0], nested |-> [u \in 1..NU |-> u % 2 = 1], embed |-> [u \in 1..NU |-> EmbedOf(u)],
                pathspecs |-> [p \in 1..Len(PathSpecs) |-> [name |-> PathSpecs[p].name, kind |-> PathSpecs[p].kind,
                                                           segs |-> [t \in 1..Len(PathSpecs[p].segs) |-> WireSeg(PathSpecs[p].segs[t])]]]]>>
 Export == /\ TLCGet("level") >= 0
